@@ -1,0 +1,13 @@
+//go:build verif
+// +build verif
+
+package mem
+
+import "github.com/hack-pad/hackpadfs/keyvalue"
+
+// NewStoreForVerif returns the package's in-memory store as a keyvalue.TransactionStore,
+// so that a verification harness can drive its transactions directly or run keyvalue.FS on a wrapped copy of it.
+// Only compiled with the 'verif' build tag.
+func NewStoreForVerif() keyvalue.TransactionStore {
+	return newStore()
+}
